@@ -14,7 +14,7 @@ VARIABLE i
 TValueBound == 4          \* |entry| of every input array (Pythagorean columns go up to 4)
 
 CfgFields == {"op", "kind", "shape", "rank", "family", "how", "mode", "operand", "odim", "keep", "copy", "npad", "padb",
-              "lens", "maxrank", "thr", "listin", "fshapes", "coreshape", "pshapes", "rshapes", "mag", "omix", "steps", "grade", "negmode", "cmix", "cdtypes"}
+              "lens", "maxrank", "thr", "listin", "fshapes", "coreshape", "pshapes", "rshapes", "mag", "omix", "steps", "grade", "negmode", "cmix", "cdtypes", "callform", "alias", "vals"}
 OutFields == {"raised", "malformed", "exact", "dense", "cn", "cnfin", "wmin", "summ", "sfin", "parts", "perm",
               "orth", "orthfin", "nproj", "recon", "slices", "dense_im", "dtype", "steps", "recon_hi", "slices_lo", "pdtypes"}
 Ops == {"normalize", "cp_flip_sign", "cp_permute_factors", "pad_tt_rank", "cp_mode_dot", "tucker_mode_dot",
@@ -42,8 +42,9 @@ WellFormed(e) ==
             /\ (e.cfg.operand = "vector" => "v" \in DOMAIN e.in /\ \A k \in 1..Len(e.in.v) : e.in.v[k] \in (-TValueBound)..TValueBound))
     /\ (e.cfg.op = "sequence" =>
             /\ "m" \in DOMAIN e.in /\ IsLogT(e.in.m) /\ TBounded(e.in.m) /\ Len(e.in.m.shape) = 2
-            /\ \A si \in 1..Len(e.cfg.steps) : e.cfg.steps[si] \in {"N", "M", "A", "F"}
-            /\ \A si \in 1..Len(e.out.steps) : /\ {"raised", "dense", "cn", "cnfin"} \subseteq DOMAIN e.out.steps[si]
+            /\ \A si \in 1..Len(e.cfg.steps) : e.cfg.steps[si] \in {"N", "M", "A", "F", "X"}
+            /\ \A si \in 1..Len(e.out.steps) : /\ {"raised", "accepted", "dense", "cn", "cnfin"} \subseteq DOMAIN e.out.steps[si]
+                                                /\ e.out.steps[si].accepted \in BOOLEAN
                                                 /\ e.out.steps[si].raised \in BOOLEAN /\ e.out.steps[si].cnfin \in BOOLEAN
                                                 /\ IsLogQ(e.out.steps[si].dense))
     /\ (e.cfg.omix # "none" =>
@@ -110,6 +111,8 @@ Verdict(e) ==
         \* after every normalize() its non-zero columns have unit norm (zero-ness from the state BEFORE that step)
         LET ST == SeqStates(c, in)
             SClause(si) == IF out.steps[si].raised THEN "SeqRaised"
+                          \* the deliberately failing call must be refused, and must leave the object as it was
+                          ELSE IF c.steps[si] = "X" /\ out.steps[si].accepted THEN "SeqBadCallAccepted"
                           ELSE IF ~InBound(CPDense(ST[si])) THEN "InDomain"
                           ELSE IF ~CloseQ(out.steps[si].dense, CPDense(ST[si])) THEN "SeqDense"
                           ELSE IF c.steps[si] = "N" /\ (~out.steps[si].cnfin \/ ~UnitColumns("cp", ST[si - 1], out.steps[si].cn)) THEN "SeqUnitColumns"
